@@ -1,3 +1,130 @@
 import Ptk.Proto
--- stub: the C08 model driver has not been written yet
-def main : IO Unit := Ptk.Proto.run fun _ => "bad-op"
+import Ptk.Gen.PyChars
+import Ptk.Model.C08
+open Ptk Ptk.Py Ptk.Proto Ptk.C08
+
+/-- ASCII versions of the transform callbacks (the correspondence uses ASCII letters and
+    caseless symbols only; the theorems hold for every callback) -/
+def rot13c (c : Char) : Char :=
+  if c.isLower then Char.ofNat ((c.toNat - 97 + 13) % 26 + 97)
+  else if c.isUpper then Char.ofNat ((c.toNat - 65 + 13) % 26 + 65)
+  else c
+
+def tfAscii : Transform → Text → Text
+  | .rot13 => fun t => t.map rot13c
+  | .lower => fun t => t.map fun c => if c.isUpper then c.toLower else c
+  | .upper => fun t => t.map fun c => if c.isLower then c.toUpper else c
+  | .swap => fun t => t.map fun c =>
+      if c.isLower then c.toUpper else if c.isUpper then c.toLower else c
+
+def env : Env := { isSpace := Gen.isSpace, reSpace := Gen.reSpace, tf := tfAscii }
+
+def decOptNat (tok : String) : Option (Option Nat) :=
+  if tok == "N" then some none else tok.toNat?.map some
+
+def decOptChar (tok : String) : Option (Option Char) :=
+  if tok == "N" then some none else tok.toNat?.map fun n => some (Char.ofNat n)
+
+def decChar (tok : String) : Option Char := tok.toNat?.map Char.ofNat
+
+def decType : String → Option TOType
+  | "0" => some .exclusive
+  | "1" => some .inclusive
+  | "2" => some .linewise
+  | _ => none
+
+def decMotion : List String → Option Motion
+  | ["h"] => some .h
+  | ["l"] => some .l
+  | ["0"] => some .zero
+  | ["$"] => some .dollar
+  | ["^"] => some .caret
+  | ["w"] => some (.w false)
+  | ["W"] => some (.w true)
+  | ["b"] => some (.b false)
+  | ["B"] => some (.b true)
+  | ["e"] => some (.e false)
+  | ["E"] => some (.e true)
+  | ["f", c] => do pure (.f (← decChar c))
+  | ["F", c] => do pure (.F (← decChar c))
+  | ["t", c] => do pure (.t (← decChar c))
+  | ["T", c] => do pure (.T (← decChar c))
+  | ["iw"] => some (.iw false)
+  | ["iW"] => some (.iw true)
+  | ["aw"] => some (.aw false)
+  | ["aW"] => some (.aw true)
+  | ["j"] => some .j
+  | ["k"] => some .k
+  | ["G"] => some .G
+  | ["gg"] => some .gg
+  | ["ib", l, r] => do pure (.bracket (← decChar l) (← decChar r) true)
+  | ["ab", l, r] => do pure (.bracket (← decChar l) (← decChar r) false)
+  | ["iq", q] => do pure (.quote (← decChar q) true)
+  | ["aq", q] => do pure (.quote (← decChar q) false)
+  | ["raw", s, e, ty] => do
+      pure (.raw { start := (← decInt s), stop := (← decInt e), type := (← decType ty) })
+  | _ => none
+
+def decOp (name : String) (reg : Option Char) : Option Op :=
+  match name with
+  | "d" => some (.delete reg)
+  | "c" => some (.change reg)
+  | "y" => some (.yank reg)
+  | "g?" => some (.transform .rot13)
+  | "gu" => some (.transform .lower)
+  | "gU" => some (.transform .upper)
+  | "g~" => some (.transform .swap)
+  | ">" => some .indent
+  | "<" => some .unindent
+  | _ => none
+
+def encClip (c : Clip) : String := s!"{encStr c.text} {encBool c.lines}"
+
+/-- insertion sort of the registers by name, for a canonical reply -/
+def sortRegs (rs : List (Char × Clip)) : List (Char × Clip) :=
+  rs.foldl (fun acc p =>
+    (acc.takeWhile fun q => q.1.toNat < p.1.toNat) ++ p ::
+      (acc.dropWhile fun q => q.1.toNat < p.1.toNat)) []
+
+def encSt (s : St) : String :=
+  let regs := sortRegs s.regs
+  s!"{encStr s.text} {s.cur} {encClip s.clip} " ++
+    encList (fun p => s!"{p.1.toNat} {encClip p.2}") regs ++ s!" {encBool s.insert}"
+
+def handle (toks : List String) : String :=
+  match toks with
+  | "e2e" :: t :: c :: ct :: cl :: oa :: opn :: reg :: ma :: mot =>
+    match decStr t, decNat c, decStr ct, decBool cl, decOptNat oa, decOptChar reg, decOptNat ma,
+          decMotion mot with
+    | some t, some c, some ct, some cl, some oa, some reg, some ma, some m =>
+      match decOp opn reg with
+      | some op =>
+        let s : St := { text := t, cur := c, clip := { text := ct, lines := cl }, regs := [],
+                        insert := false }
+        match run env s oa op ma m with
+        | some s' => encSt s'
+        | none => "err"
+      | none => "bad-op"
+    | _, _, _, _, _, _, _, _ => "bad-op"
+  | "mv" :: t :: c :: ma :: mot =>
+    match decStr t, decNat c, decOptNat ma, decMotion mot with
+    | some t, some c, some ma, some m =>
+      let s : St := { text := t, cur := c, clip := { text := [], lines := false }, regs := [],
+                      insert := false }
+      toString (moveAlone env s ma m)
+    | _, _, _, _ => "bad-op"
+  | ["raw", t, c, s, e, ty] =>
+    match decStr t, decNat c, decInt s, decInt e, decType ty with
+    | some t, some c, some s, some e, some ty =>
+      let d : Doc := { text := t, cur := c }
+      let o : TextObject := { start := s, stop := e, type := ty }
+      let r := operatorRange d o
+      let ln := getLineNumbers d o
+      let cutS := match cut d o with
+        | some (d', cl) => s!"{encStr d'.text} {d'.cur} {encClip cl}"
+        | none => "err"
+      s!"{r.1} {r.2} {ln.1} {ln.2} {encBool (spansNothing d o)} {cutS}"
+    | _, _, _, _, _ => "bad-op"
+  | _ => "bad-op"
+
+def main : IO Unit := run handle
